@@ -37,4 +37,19 @@ theorem parse_text_result (fl : Flags) (s : Text) (d : Document) :
   · rintro ⟨body, ht, w, m⟩
     exact ⟨_, (lexAll_ok_iff s _).mpr ⟨body, rfl, ht⟩, w, m⟩
 
+/-! ### the optional `{…}` blocks of type-system definitions are read greedily (known finding LA2, hunt2 C01/3)
+
+    June 2018 has no `[lookahead ≠ {]`: `type A {b}` also derives as the block-less `type A` followed by the shorthand
+    query `{b}`. The grammar specification of this development takes the reading of the library, graphql-js and the 2021
+    text EXPLICITLY — `Spec.blockV`: an absent block is the item `nla .curlyL` — so `parse_text_accepts_iff` is an "iff"
+    for that reading; the instances below show it on the model (the two sibling texts are two definitions). -/
+
+private def tsFlags : Flags := { noLocation := true, allowTypeSystem := true, experimentalFragmentVariables := false }
+
+/-- `type A {b}` is rejected … -/
+example : (parseText tsFlags [116, 121, 112, 101, 32, 65, 32, 123, 98, 125]).isSome = false := by decide
+/-- … while `scalar A {b}` and `type A query {b}` are two definitions -/
+example : ((parseText tsFlags [115, 99, 97, 108, 97, 114, 32, 65, 32, 123, 98, 125]).map (·.definitions.length)) = some 2 := by decide
+example : ((parseText tsFlags [116, 121, 112, 101, 32, 65, 32, 113, 117, 101, 114, 121, 32, 123, 98, 125]).map (·.definitions.length)) = some 2 := by decide
+
 end PyGql.Props.C01
